@@ -1,4 +1,4 @@
-package main
+package lib
 
 import (
 	"go/ast"
@@ -12,7 +12,7 @@ import (
 
 // tokenTypesFromSource reads every TokenType constant out of the current hclsyntax/token.go, so that a
 // token type added to the code is not silently missing from the exhaustive tables.
-func tokenTypesFromSource() ([]hclsyntax.TokenType, []string, error) {
+func TokenTypesFromSource() ([]hclsyntax.TokenType, []string, error) {
 	root := os.Getenv("HCL_REPO")
 	if root == "" {
 		root = "/repo"
